@@ -137,6 +137,7 @@ func ExecPlan(t *testing.T, p *Plan, prop Property, keepLog bool) (run *Run) {
 		for site, max := range p.Yields {
 			s.SetYield(site, time.Duration(max))
 		}
+		s.panicSites = p.Panics
 		s.poolFresh = uint64(p.PoolFresh)
 		s.orderSalt = p.OrderSalt
 		s.engineConnTimeout = p.Stack.ConnTimeout
